@@ -7,6 +7,7 @@ package raft
 
 import (
 	"errors"
+	"sync/atomic"
 	"time"
 )
 
@@ -214,11 +215,9 @@ type VerifReplResult struct {
 	AllowPipeline, ShouldStop, StepDown bool
 }
 
-// VerifReplicateTo runs replicateTo once, on the calling goroutine, for a
-// follower whose replication state starts at nextIndex.
-func (r *Raft) VerifReplicateTo(peer Server, nextIndex, lastIndex uint64) VerifReplResult {
+func (r *Raft) verifFollowerReplication(peer Server, nextIndex uint64) *followerReplication {
 	conf := Configuration{Servers: []Server{{Suffrage: Voter, ID: r.localID, Address: r.localAddr}, peer}}
-	s := &followerReplication{
+	return &followerReplication{
 		peer:                peer,
 		commitment:          newCommitment(make(chan struct{}, 1), conf, 0),
 		stopCh:              make(chan uint64, 1),
@@ -231,10 +230,12 @@ func (r *Raft) VerifReplicateTo(peer Server, nextIndex, lastIndex uint64) VerifR
 		notifyCh:            make(chan struct{}, 1),
 		stepDown:            make(chan struct{}, 1),
 	}
-	stop := r.replicateTo(s, lastIndex)
-	res := VerifReplResult{NextIndex: s.nextIndex, Failures: s.failures, AllowPipeline: s.allowPipeline, ShouldStop: stop}
+}
+
+func verifReplResult(s *followerReplication, stop bool) VerifReplResult {
+	res := VerifReplResult{NextIndex: atomic.LoadUint64(&s.nextIndex), Failures: s.failures, AllowPipeline: s.allowPipeline, ShouldStop: stop}
 	s.commitment.Lock()
-	res.MatchIndex = s.commitment.matchIndexes[peer.ID]
+	res.MatchIndex = s.commitment.matchIndexes[s.peer.ID]
 	s.commitment.Unlock()
 	select {
 	case <-s.stepDown:
@@ -242,6 +243,54 @@ func (r *Raft) VerifReplicateTo(peer Server, nextIndex, lastIndex uint64) VerifR
 	default:
 	}
 	return res
+}
+
+// VerifReplicateTo runs replicateTo once, on the calling goroutine, for a
+// follower whose replication state starts at nextIndex.
+func (r *Raft) VerifReplicateTo(peer Server, nextIndex, lastIndex uint64) VerifReplResult {
+	s := r.verifFollowerReplication(peer, nextIndex)
+	stop := r.replicateTo(s, lastIndex)
+	return verifReplResult(s, stop)
+}
+
+// VerifPipeline is a pipelineReplicate run on its own goroutine, for a follower
+// whose replication state starts at nextIndex; the caller triggers every send.
+type VerifPipeline struct {
+	s    *followerReplication
+	done chan struct{}
+}
+
+func (r *Raft) VerifStartPipeline(peer Server, nextIndex uint64) *VerifPipeline {
+	p := &VerifPipeline{s: r.verifFollowerReplication(peer, nextIndex), done: make(chan struct{})}
+	go func() {
+		defer close(p.done)
+		_ = r.pipelineReplicate(p.s)
+	}()
+	return p
+}
+
+// Trigger is what the leader loop does after it has appended to its log.
+func (p *VerifPipeline) Trigger() { asyncNotifyCh(p.s.triggerCh) }
+
+// Running reports whether pipelineReplicate has not returned yet.
+func (p *VerifPipeline) Running() bool {
+	select {
+	case <-p.done:
+		return false
+	default:
+		return true
+	}
+}
+
+// Stop ends the run the way the leader loop stops replication to a peer
+// (without a last index to push) and reports the replication state.
+func (p *VerifPipeline) Stop() VerifReplResult {
+	select {
+	case p.s.stopCh <- 0:
+	default:
+	}
+	<-p.done
+	return verifReplResult(p.s, false)
 }
 
 // VerifRunLeader runs the leader loop on the calling goroutine, exactly as run()
